@@ -470,6 +470,242 @@ macro "awp_eval" : tactic => `(tactic| repeat (first
       Option.getD_some, Option.getD_none])
   | split))
 
+
+/-! ## `Inert`: programs that neither move the cursor nor emit `EOF` (mode-stack bookkeeping,
+look-behind, errors, ordinary tokens).  Proved by rule application, so that large pre-loaders do
+not duplicate their continuation. -/
+
+def Inert {α : Type} (p : Prog α) : Prop :=
+  ∀ (Q : α → List Char → Bool → Prop) (r : List Char), (∀ a, Q a r false) → awp p Q r false
+
+namespace Inert
+variable {α β : Type}
+
+theorem pure (a : α) : Inert (Pure.pure a : Prog α) := fun _ _ hQ => awp.pure_iff.2 (hQ a)
+
+theorem bind {p : Prog α} {f : α → Prog β} (hp : Inert p) (hf : ∀ a, Inert (f a)) : Inert (p >>= f) := by
+  intro Q r hQ
+  rw [awp.bind_iff]
+  exact hp _ r (fun a => hf a Q r hQ)
+
+theorem ite {c : Prop} [Decidable c] {p q : Prog α} (hp : Inert p) (hq : Inert q) : Inert (if c then p else q) := by
+  split <;> assumption
+
+theorem awp' {p : Prog α} (h : Inert p) {Q : α → List Char → Bool → Prop} {r : List Char}
+    (hQ : ∀ a, Q a r false) : awp p Q r false := h Q r hQ
+
+theorem startToken  : Inert (Prog.perform .startToken) := by
+  intro Q r hQ; simp only [Prog.perform, awp_simp]; simp [hQ]
+
+theorem markIfNone  : Inert (Prog.perform .markIfNone) := by
+  intro Q r hQ; simp only [Prog.perform, awp_simp]; simp [hQ]
+
+theorem clearMark  : Inert (Prog.perform .clearMark) := by
+  intro Q r hQ; simp only [Prog.perform, awp_simp]; simp [hQ]
+
+theorem insertSepBeforeLastDefault  : Inert (Prog.perform .insertSepBeforeLastDefault) := by
+  intro Q r hQ; simp only [Prog.perform, awp_simp]; simp [hQ]
+
+theorem emitError {e} : Inert (Prog.perform (.emitError e)) := by
+  intro Q r hQ; simp only [Prog.perform, awp_simp]; simp [hQ]
+
+theorem prepError {e} : Inert (Prog.perform (.prepError e)) := by
+  intro Q r hQ; simp only [Prog.perform, awp_simp]; simp [hQ]
+
+theorem emitPrepared  : Inert (Prog.perform .emitPrepared) := by
+  intro Q r hQ; simp only [Prog.perform, awp_simp]; simp [hQ]
+
+theorem pushMode {m} : Inert (Prog.perform (.pushMode m)) := by
+  intro Q r hQ; simp only [Prog.perform, awp_simp]; simp [hQ]
+
+theorem popMode  : Inert (Prog.perform .popMode) := by
+  intro Q r hQ; simp only [Prog.perform, awp_simp]; simp [hQ]
+
+theorem mode  : Inert (Prog.perform .mode) := by
+  intro Q r hQ; simp only [Prog.perform, awp_simp]; simp [hQ]
+
+theorem popModeRaw  : Inert (Prog.perform .popModeRaw) := by
+  intro Q r hQ; simp only [Prog.perform, awp_simp]; simp [hQ]
+
+theorem modifyTop {f} : Inert (Prog.perform (.modifyTop f)) := by
+  intro Q r hQ; simp only [Prog.perform, awp_simp]; simp [hQ]
+
+theorem modifyAt {i} {f} : Inert (Prog.perform (.modifyAt i f)) := by
+  intro Q r hQ; simp only [Prog.perform, awp_simp]; simp [hQ]
+
+theorem insertModeAt {i} {m} : Inert (Prog.perform (.insertModeAt i m)) := by
+  intro Q r hQ; simp only [Prog.perform, awp_simp]; simp [hQ]
+
+theorem checkpoint  : Inert (Prog.perform .checkpoint) := by
+  intro Q r hQ; simp only [Prog.perform, awp_simp]; simp [hQ]
+
+theorem clearCheckpoint  : Inert (Prog.perform .clearCheckpoint) := by
+  intro Q r hQ; simp only [Prog.perform, awp_simp]; simp [hQ]
+
+theorem bumpCheckpointModeLen {n} : Inert (Prog.perform (.bumpCheckpointModeLen n)) := by
+  intro Q r hQ; simp only [Prog.perform, awp_simp]; simp [hQ]
+
+theorem pushPending {b} : Inert (Prog.perform (.pushPending b)) := by
+  intro Q r hQ; simp only [Prog.perform, awp_simp]; simp [hQ]
+
+theorem popPending  : Inert (Prog.perform .popPending) := by
+  intro Q r hQ; simp only [Prog.perform, awp_simp]; simp [hQ]
+
+theorem pendingStat  : Inert (Prog.perform .pendingStat) := by
+  intro Q r hQ; simp only [Prog.perform, awp_simp]; simp [hQ]
+
+theorem setPending {b} : Inert (Prog.perform (.setPending b)) := by
+  intro Q r hQ; simp only [Prog.perform, awp_simp]; simp [hQ]
+
+theorem nestInc  : Inert (Prog.perform .nestInc) := by
+  intro Q r hQ; simp only [Prog.perform, awp_simp]; simp [hQ]
+
+theorem nestDec  : Inert (Prog.perform .nestDec) := by
+  intro Q r hQ; simp only [Prog.perform, awp_simp]; simp [hQ]
+
+theorem litBegin  : Inert (Prog.perform .litBegin) := by
+  intro Q r hQ; simp only [Prog.perform, awp_simp]; simp [hQ]
+
+theorem litBeginAtTok  : Inert (Prog.perform .litBeginAtTok) := by
+  intro Q r hQ; simp only [Prog.perform, awp_simp]; simp [hQ]
+
+theorem litCut  : Inert (Prog.perform .litCut) := by
+  intro Q r hQ; simp only [Prog.perform, awp_simp]; simp [hQ]
+
+theorem litMarkEnd  : Inert (Prog.perform .litMarkEnd) := by
+  intro Q r hQ; simp only [Prog.perform, awp_simp]; simp [hQ]
+
+theorem litResolve {n} : Inert (Prog.perform (.litResolve n)) := by
+  intro Q r hQ; simp only [Prog.perform, awp_simp]; simp [hQ]
+
+theorem litAddDecoded {cs} : Inert (Prog.perform (.litAddDecoded cs)) := by
+  intro Q r hQ; simp only [Prog.perform, awp_simp]; simp [hQ]
+
+theorem payClear  : Inert (Prog.perform .payClear) := by
+  intro Q r hQ; simp only [Prog.perform, awp_simp]; simp [hQ]
+
+theorem panic {m} : Inert (Prog.perform (.panic m)) := by
+  intro Q r hQ; simp only [Prog.perform, awp_simp]; simp [hQ]
+
+theorem pendingText  : Inert (Prog.perform .pendingText) := by
+  intro Q r hQ; simp only [Prog.perform, awp_simp]; simp [hQ]
+
+theorem pendingTextToMark  : Inert (Prog.perform .pendingTextToMark) := by
+  intro Q r hQ; simp only [Prog.perform, awp_simp]; simp [hQ]
+
+theorem pendingTextWithPrev  : Inert (Prog.perform .pendingTextWithPrev) := by
+  intro Q r hQ; simp only [Prog.perform, awp_simp]; simp [hQ]
+
+theorem lastTok  : Inert (Prog.perform .lastTok) := by
+  intro Q r hQ; simp only [Prog.perform, awp_simp]; simp [hQ]
+
+theorem lastDefaultTok  : Inert (Prog.perform .lastDefaultTok) := by
+  intro Q r hQ; simp only [Prog.perform, awp_simp]; simp [hQ]
+
+theorem secondLastDefaultTok  : Inert (Prog.perform .secondLastDefaultTok) := by
+  intro Q r hQ; simp only [Prog.perform, awp_simp]; simp [hQ]
+
+theorem hasCheckpoint  : Inert (Prog.perform .hasCheckpoint) := by
+  intro Q r hQ; simp only [Prog.perform, awp_simp]; simp [hQ]
+
+theorem nesting  : Inert (Prog.perform .nesting) := by
+  intro Q r hQ; simp only [Prog.perform, awp_simp]; simp [hQ]
+
+theorem modeDepth  : Inert (Prog.perform .modeDepth) := by
+  intro Q r hQ; simp only [Prog.perform, awp_simp]; simp [hQ]
+
+theorem hasMark  : Inert (Prog.perform .hasMark) := by
+  intro Q r hQ; simp only [Prog.perform, awp_simp]; simp [hQ]
+
+theorem litIsEmpty  : Inert (Prog.perform .litIsEmpty) := by
+  intro Q r hQ; simp only [Prog.perform, awp_simp]; simp [hQ]
+
+theorem loopProbe  : Inert (Prog.perform .loopProbe) := by
+  intro Q r hQ; simp only [Prog.perform, awp_simp]; simp [hQ]
+
+theorem dassert {c} {m} : Inert (Prog.perform (.dassert c m)) := by
+  intro Q r hQ; simp only [Prog.perform, awp_simp]; simp [hQ]
+
+theorem rest  : Inert (Prog.perform .rest) := by
+  intro Q r hQ; simp only [Prog.perform, awp_simp]; simp [hQ]
+
+theorem emitToken {ch ty p} (h : ty ≠ .EOF) : Inert (Prog.perform (.emitToken ch ty p)) := by
+  intro Q r hQ; simp only [Prog.perform, awp_simp]; simp [hQ, h]
+
+theorem emitTokenAtMark {ch ty p} (h : ty ≠ .EOF) : Inert (Prog.perform (.emitTokenAtMark ch ty p)) := by
+  intro Q r hQ; simp only [Prog.perform, awp_simp]; simp [hQ, h]
+
+theorem updateLastToken {ch ty p} (h : ty ≠ .EOF) : Inert (Prog.perform (.updateLastToken ch ty p)) := by
+  intro Q r hQ; simp only [Prog.perform, awp_simp]; simp [hQ, h]
+
+theorem retypeLastDefault {e n} (h : n ≠ .EOF) : Inert (Prog.perform (.retypeLastDefault e n)) := by
+  intro Q r hQ; simp only [Prog.perform, awp_simp]; simp [hQ, h]
+
+end Inert
+
+attribute [irreducible] Inert
+
+/-- prove `Inert p` by walking the program -/
+macro "inert" : tactic => `(tactic| repeat' (first
+  | (intro h; cases h; done)
+  | intro _
+  | apply Inert.bind | apply Inert.ite | apply Inert.pure
+  | apply Inert.startToken
+  | apply Inert.markIfNone
+  | apply Inert.clearMark
+  | apply Inert.insertSepBeforeLastDefault
+  | apply Inert.emitError
+  | apply Inert.prepError
+  | apply Inert.emitPrepared
+  | apply Inert.pushMode
+  | apply Inert.popMode
+  | apply Inert.mode
+  | apply Inert.popModeRaw
+  | apply Inert.modifyTop
+  | apply Inert.modifyAt
+  | apply Inert.insertModeAt
+  | apply Inert.checkpoint
+  | apply Inert.clearCheckpoint
+  | apply Inert.bumpCheckpointModeLen
+  | apply Inert.pushPending
+  | apply Inert.popPending
+  | apply Inert.pendingStat
+  | apply Inert.setPending
+  | apply Inert.nestInc
+  | apply Inert.nestDec
+  | apply Inert.litBegin
+  | apply Inert.litBeginAtTok
+  | apply Inert.litCut
+  | apply Inert.litMarkEnd
+  | apply Inert.litResolve
+  | apply Inert.litAddDecoded
+  | apply Inert.payClear
+  | apply Inert.panic
+  | apply Inert.pendingText
+  | apply Inert.pendingTextToMark
+  | apply Inert.pendingTextWithPrev
+  | apply Inert.lastTok
+  | apply Inert.lastDefaultTok
+  | apply Inert.secondLastDefaultTok
+  | apply Inert.hasCheckpoint
+  | apply Inert.nesting
+  | apply Inert.modeDepth
+  | apply Inert.hasMark
+  | apply Inert.litIsEmpty
+  | apply Inert.loopProbe
+  | apply Inert.dassert
+  | apply Inert.rest
+  | apply Inert.emitToken
+  | apply Inert.emitTokenAtMark
+  | apply Inert.updateLastToken
+  | apply Inert.retypeLastDefault
+  | split))
+
+theorem ite_intro {c : Prop} [Decidable c] {P Q : Prop} (hp : c → P) (hq : ¬c → Q) : if c then P else Q := by
+  split
+  · exact hp ‹_›
+  · exact hq ‹_›
+
 /-- `awp_auto [callee lemmas]`: symbolic evaluation that also walks through the logical structure of
 the evaluated condition and discharges calls with the given lemmas; leaves the leaf facts -/
 syntax "awp_auto" "[" term,* "]" : tactic
@@ -480,6 +716,7 @@ macro_rules
           Option.getD_some, Option.getD_none])
       | (first $[| apply $ls]*)
       | refine ⟨?_, ?_⟩
+      | apply ite_intro
       | split))
 
 end SasLexer
